@@ -152,13 +152,17 @@ PROPS["C12"] = dict(
 PROPS["C13"] = dict(
     modules=["Sth.Props.C01", "Sth.Props.C08"],
     theorems=list(CORE_RL),
-    runs=[dict(engine="seq", quick=300, thorough=10000, extra=["-profile", "c13"], nontrivial=["freelist-nonempty", "pgc-relocated"])],
+    runs=[dict(engine="seq", quick=300, thorough=10000, extra=["-profile", "c13"], nontrivial=["freelist-nonempty", "pgc-relocated"]),
+          dict(engine="sched", quick=120, thorough=10000, extra=["-profile", "c13"], nontrivial=["freelist-nonempty"])],
     rule="C04-style traces (small files, overwrites, removals, flushes, reopen, GC cycles with relocation and deadlines); after every "
          "mutating op the `acct` view lists the locations named by live index entries and the recorded locations (freelist pool + file + "
          ".gc) of the REAL store; the driver checks on those views alone that the locations that stopped being current equal the newly "
          "recorded ones (nothing for a new key, a rejected Put, a Remove of an absent key), nothing is recorded twice or while current, "
          "nothing vanishes without a GC cycle, and a complete cycle consumes everything recorded before it; the model's own views are "
-         "compared too. Non-trivial = distinct trace with a non-empty freelist.",
+         "compared too. Second run (hand-over interleavings): under the cooperative scheduler, writers owning disjoint keys overwrite and "
+         "remove while a Flush thread and a primary GC thread (ToGC: flush, close, rename, reopen) run, with scheduling points inside "
+         "freelist Flush/ToGC; after quiescence every non-deleted primary record that no index entry names must be on the freelist exactly "
+         "once, nothing current and nothing twice. Non-trivial = distinct trace with a non-empty freelist.",
     assumptions=["sequential histories; the hand-over interleavings (freelist Put || Flush || ToGC) are exercised by the sched engine under C06",
                  "crash loss of unflushed freelist entries is a space leak recorded as known finding D19 (not exercised here)"],
 )
